@@ -204,6 +204,8 @@ class Checker:
         if processed and not pre and not queued_before and not guards and before and kind != 'ENTER' and kind != 'CONSTRUCT':
             if (op.act, op.res) != before:
                 self.v('C02', 'config|changed-with-nothing-pending', op)
+        # ---- C02: postconditions stated by the property, checked without the interpreter
+        if processed and before and kind in ('UPDATE', 'REACT', 'REACT2', 'IMMEDIATE'): self.postcondition(op, m, pre, guards, rounds, before, prev_op, queued_before)
         # ---- C12: resolutions
         self.selection(op, m, cfg_ok)
         # ---- C12: number of generator calls
@@ -392,7 +394,7 @@ class Checker:
         # marks die with the exit of their state (anonymous heads included)
         for s in m.exited_all: pt.marks_s.discard(s); pt.marks_f.discard(s)
         for me, s in cbs:
-            if me == EXIT: pt.marks_s.discard(s); pt.marks_f.discard(s)
+            if me == EXIT or me == REENTER: pt.marks_s.discard(s); pt.marks_f.discard(s)
         if prev_op is not None and prev_op.act:
             for s in range(self.n):
                 if prev_op.act[s] == '1' and op.act[s] != '1': pt.marks_s.discard(s); pt.marks_f.discard(s)
@@ -483,6 +485,38 @@ class Checker:
                 if abs(h) >= 127: self.stats['C16.saturated-history-values'] += 1
         if prev is not None and prev != hist: self.nontrivial['C16'].add(tuple(hist))
         st['hist'] = list(hist)
+
+    # ------------------------------------------------------------------ C02 (independent of the interpreter)
+    def postcondition(self, op, m, pre, guards, rounds, before, prev_op, queued_before):
+        if len(pre) != 1 or queued_before or any(g['issue'] for g in guards) or any(r['vetoed'] for r in rounds): return
+        k, d = pre[0][0], pre[0][1]
+        if k == SCHEDULE: return
+        nodes = self.nodes
+        self.stats['C02.postconditions'] += 1
+        # every requested destination and all its ancestors are active
+        s = d
+        while s >= 0:
+            if op.act[s] != '1': self.v('C02', 'post|destination-or-ancestor-not-active-after-approved-request|' + KIND_NAMES[k], op, {'destination': d, 'inactive': s}); return
+            s = nodes[s]['parent']
+        # every region below the destination picks its sub-state by the request kind
+        if k in (1, 2, 3):
+            for r in self.subtree(d):
+                x = nodes[r]
+                if x['kind'] != 'C' or op.act[r] != '1': continue
+                sub = ord(op.sub[r]) - 48 if op.sub[r] not in '-.' else None
+                if k == 1: want = 0
+                elif k == 3:
+                    if not self.named[r]: continue
+                    want = m.ans.select(r)
+                else:
+                    if before[0][r] == '1' and r != d: continue       # region was active: 'last active' is not defined by the property
+                    if before[0][r] == '1': continue
+                    marks = [i for i, c in enumerate(x['children']) if before[1][c] == '1']
+                    want = marks[0] if marks else 0
+                if sub != want:
+                    par = nodes[d]['parent']
+                    ign = '|active-destination-directly-under-orthogonal-region' if (par >= 0 and nodes[par]['kind'] == 'O' and before[0][d] == '1') else ''
+                    self.v('C02', 'post|region-below-destination-not-resolved-by-request-kind' + ign + ('|' + KIND_NAMES[k] if not ign else ''), op, {'destination': d, 'region': r, 'sub-state': sub, 'prescribed': want}); return
 
     # ------------------------------------------------------------------ C12
     def selection(self, op, m, cfg_ok):
